@@ -18,7 +18,7 @@
    (fees far below 2^190).
    Claims are kept as credit logs ([ledger]): the stored amount of key k is the sum of the credits of k.
    No proofs here. *)
-From Coq Require Import List String Bool ZArith Lia.
+From Coq Require Import List String Ascii Bool ZArith Lia.
 From Exo Require Import Base.IntDec Base.Util.
 Import ListNotations.
 Local Open Scope Z_scope.
@@ -266,7 +266,66 @@ Record event := mkEv {
 Definition mkEvSame (id dist_id : string) (tax : Z) (mint_id : string) (reward total : Z) (o : obs) : event :=
   mkEv id dist_id tax mint_id reward total [] o o false.
 
-Record case := mkCase { c_subs : list string; c_events : list event }.
+(* ---- parameter updates (x/exomint/keeper/msg_server.go UpdateParams, x/exomint/types/params.go OverrideIfRequired /
+        Validate, x/exomint/types/msg.go ValidateBasic; x/feedistribution/keeper/msg_update_params.go UpdateParams;
+        x/epochs/types/identifier.go ValidateEpochIdentifierString; x/epochs/keeper/epoch_infos.go GetEpochInfo) ---- *)
+
+(* strings.TrimSpace(s) = "" : every character is white space (ASCII white space; generated identifiers are ASCII) *)
+Definition is_space (c : Ascii.ascii) : bool :=
+  let n := Ascii.nat_of_ascii c in
+  Nat.eqb n 32 || Nat.eqb n 9 || Nat.eqb n 10 || Nat.eqb n 11 || Nat.eqb n 12 || Nat.eqb n 13.
+
+Fixpoint blank (s : string) : bool :=
+  match s with
+  | EmptyString => true
+  | String c r => is_space c && blank r
+  end.
+
+(* GetEpochInfo(identifier) finds an entry: the lookup is by the exact bytes of the identifier *)
+Definition known_id (known : list string) (s : string) : bool := existsb (String.eqb s) known.
+
+(* exomint UpdateParams (mint denom not changed). [vb]: the message went through ValidateBasic first, as every
+   transaction / governance message does (Params.Validate: reward >= 0, identifier not blank); [auth]: msg.Authority is the
+   module authority (the chain id counts as mainnet). Returns (error?, identifier and reward in force afterwards). *)
+Definition mint_update (vb auth : bool) (known : list string) (prev : string * Z) (req : string * Z) : bool * (string * Z) :=
+  if vb && ((snd req <? 0) || blank (fst req)) then (true, prev)
+  else if negb auth then (true, prev)
+  else
+    (* OverrideIfRequired: a negative reward / a blank identifier is replaced by the previous value *)
+    let reward := if snd req <? 0 then snd prev else snd req in
+    let id1 := if blank (fst req) then fst prev else fst req in
+    (* stateful check: an identifier that names no epoch is replaced by the previous one *)
+    let id2 := if known_id known id1 then id1 else fst prev in
+    (false, (id2, reward)).
+
+(* feedistribution UpdateParams: Params.Validate accepts everything; an identifier that names no epoch is rejected *)
+Definition dist_update (auth : bool) (known : list string) (prev : string * Z) (req : string * Z) : bool * (string * Z) :=
+  if negb auth then (true, prev)
+  else if known_id known (fst req) then (false, req) else (true, prev).
+
+Inductive upd_kind := UMint | UDist | USetMint | USetDist.   (* the last two: params written by the harness (SetParams) *)
+
+Record upd := mkUpd {
+  u_kind : upd_kind; u_vb : bool; u_auth : bool;
+  u_known : list string;                   (* identifiers in the epochs store *)
+  u_prev : string * Z;                     (* stored (identifier, reward | tax) before *)
+  u_req : string * Z;                      (* requested *)
+  u_err : bool;                            (* the handler (or ValidateBasic) returned an error *)
+  u_post : string * Z                      (* stored afterwards *)
+}.
+
+Definition upd_spec (u : upd) (prev : string * Z) : bool * (string * Z) :=
+  match u_kind u with
+  | UMint => mint_update (u_vb u) (u_auth u) (u_known u) prev (u_req u)
+  | UDist => dist_update (u_auth u) (u_known u) prev (u_req u)
+  | USetMint | USetDist => (false, u_req u)
+  end.
+
+Inductive item := IEv (e : event) | IUpd (u : upd).
+
+Record case := mkCase { c_subs : list string; c_items : list item }.
+
+Definition pair_eqb (a b : string * Z) : bool := String.eqb (fst a) (fst b) && (snd a =? snd b).
 
 (* a ledger holding the observed amounts, plus one entry (key -1) for whatever the store holds under other keys *)
 Definition ledger_of (known : list (Z * Z)) (tot : Z) : ledger := (-1, tot - ltotal known) :: known.
@@ -303,9 +362,16 @@ Fixpoint first_bad {A} (f : A -> bool) (l : list A) (i : nat) : option nat :=
 
 (* None = model and implementation agree on every epoch end of the case; Some 0 = hook order differs;
    Some (i+1) = epoch end i differs *)
+Definition check_upd (u : upd) : bool :=
+  let '(err, post) := upd_spec u (u_prev u) in
+  Bool.eqb err (u_err u) && pair_eqb post (u_post u).
+
+Definition check_item (i : item) : bool :=
+  match i with IEv e => check_event e | IUpd u => check_upd u end.
+
 Definition check_case (c : case) : option nat :=
   if negb (list_eqb String.eqb (c_subs c) subscribers) then Some 0%nat
-  else first_bad check_event (c_events c) 1.
+  else first_bad check_item (c_items c) 1.
 
 (* ---- the property, evaluated on the IMPLEMENTATION's observations only ---- *)
 Definition obs_booked (o : obs) : Z := o_comm o + o_tot_commission o + o_tot_rewards o.
@@ -369,6 +435,43 @@ Definition monitor_event (e : event) : bool :=
         (o_tot_outstanding post =? o_tot_outstanding pre) && (o_tot_commission post =? o_tot_commission pre) &&
         (o_tot_rewards post =? o_tot_rewards pre) && (o_comm post =? o_comm pre))).
 
+(* The CONFIGURED parameters: what a correct sequence of parameter updates leaves in force. The monitor follows them through
+   the updates of the case by the update rules above (starting from the stored values observed before the first update) and
+   evaluates every epoch end against the configured identifiers / reward / tax — not against whatever the implementation
+   happens to have stored. None = no update seen yet: the stored values observed at the epoch end are the configuration. *)
+Record conf := mkConf { cf_mint : option (string * Z); cf_dist : option (string * Z) }.
+
+Definition conf_step (cf : conf) (u : upd) : conf :=
+  match u_kind u with
+  | UMint | USetMint =>
+      let prev := match cf_mint cf with Some p => p | None => u_prev u end in
+      mkConf (Some (snd (upd_spec u prev))) (cf_dist cf)
+  | UDist | USetDist =>
+      let prev := match cf_dist cf with Some p => p | None => u_prev u end in
+      mkConf (cf_mint cf) (Some (snd (upd_spec u prev)))
+  end.
+
+(* the epoch end as the property sees it: the configured params in place of the stored ones *)
+Definition with_conf (cf : conf) (e : event) : event :=
+  let m := match cf_mint cf with Some p => p | None => (e_mint_id e, e_reward e) end in
+  let d := match cf_dist cf with Some p => p | None => (e_dist_id e, e_tax e) end in
+  mkEv (e_id e) (fst d) (snd d) (fst m) (snd m) (e_total e) (e_vals e) (e_pre e) (e_post e) (e_panic e).
+
+(* a parameter update never leaves an identifier in force that names no epoch (then nothing would ever be minted /
+   distributed again), whatever was requested *)
+Definition monitor_upd (u : upd) : bool :=
+  match u_kind u with
+  | UMint | UDist => negb (known_id (u_known u) (fst (u_prev u))) || known_id (u_known u) (fst (u_post u))
+  | USetMint | USetDist => true
+  end.
+
+Fixpoint monitor_items (cf : conf) (l : list item) (i : nat) : option nat :=
+  match l with
+  | [] => None
+  | IEv e :: r => if monitor_event (with_conf cf e) then monitor_items cf r (S i) else Some i
+  | IUpd u :: r => if monitor_upd u then monitor_items (conf_step cf u) r (S i) else Some i
+  end.
+
 Definition monitor_case (c : case) : option nat :=
   if negb (list_eqb String.eqb (c_subs c) subscribers) then Some 0%nat
-  else first_bad monitor_event (c_events c) 1.
+  else monitor_items (mkConf None None) (c_items c) 1.
